@@ -49,7 +49,8 @@ public:
 	{
 		Root(root, [&](auto& v)
 		{
-			if (out.mem) BitSerializer::SaveObject<TArchive>(v, *out.mem, o);
+			if (&o == &kLibraryDefaults) { if (out.mem) BitSerializer::SaveObject<TArchive>(v, *out.mem); else BitSerializer::SaveObject<TArchive>(v, *out.stream); }
+			else if (out.mem) BitSerializer::SaveObject<TArchive>(v, *out.mem, o);
 			else BitSerializer::SaveObject<TArchive>(v, *out.stream, o);
 		});
 	}
@@ -57,7 +58,8 @@ public:
 	{
 		Root(root, [&](auto& v)
 		{
-			if (in.mem) BitSerializer::LoadObject<TArchive>(v, *in.mem, o);
+			if (&o == &kLibraryDefaults) { if (in.mem) BitSerializer::LoadObject<TArchive>(v, *in.mem); else if (in.view) BitSerializer::LoadObject<TArchive>(v, *in.view); else BitSerializer::LoadObject<TArchive>(v, *in.stream); }
+			else if (in.mem) BitSerializer::LoadObject<TArchive>(v, *in.mem, o);
 			else if (in.view) BitSerializer::LoadObject<TArchive>(v, *in.view, o);
 			else BitSerializer::LoadObject<TArchive>(v, *in.stream, o);
 		});
